@@ -218,12 +218,12 @@ impl ReturnValue {
     }
 }
 """)
-    obls.append(Obl("C13.return_value.get", ["C13", "C01"], fn="ReturnValue::get", desc="ReturnValue::get: Some(v) exactly for Value(v), for every v"))
+    obls.append(Obl("C13.return_value.get", ["C13", "C01", "C19"], fn="ReturnValue::get", desc="ReturnValue::get: Some(v) exactly for Value(v), for every v"))
     gen = header(log, f"{FUNC}: BuiltInFunction::run arms VecMap / VecFilter (head), MapOp::wait_for, FilterOp::wait_for") + SPEC + \
         "pub open spec fn keeps(rv: ReturnValue) -> bool { rv is Value && deref(rv->Value_0) == Primitive::Bool(true) }\n" + "impl Primitive { pub fn verif_clone(&self) -> (r: Primitive) ensures r == *self { clone_prim(self) } }\n" + "\n".join(fns) + "\n} // verus!\nfn main() {}\n"
     return gen, obls, log
 
 
-UNITS = [VUnit("c17_bridge", ["C17", "C13", "C07"], "list.map / list.filter bridges: no out-of-range visit, empty receiver", build)]
+UNITS = [VUnit("c17_bridge", ["C17", "C13", "C07", "C19"], "list.map / list.filter bridges: no out-of-range visit, empty receiver", build)]
 UNITS[0].assumes = ["fragments: the statements of the VecMap / VecFilter arms in front of the local struct definitions, and the wait_for methods of the two bridges; `finish` and the bridge loop of Function::run (abstract in C01.run.step) are not covered",
                     "Cell<i32> / GcCell as plain state (R10); the visited list is arbitrary at each visit (the callback may change it)"]
